@@ -799,6 +799,24 @@ Proof.
   apply poll_ext. intros n s1. apply gen_while_exec_iteration_is_model.
 Qed.
 
+(** * pypyr/dsl.py :: Step.save_error *)
+Lemma gen_save_error_is_model sp n m e sw s :
+  gen_save_error sp (ORaise (RExn n m e)) sw s = save_error sp n m e sw s.
+Proof.
+  unfold gen_save_error, save_error, opt_truth.
+  replace (if match s_onerror sp with Some v => py_truth v | None => false end
+           then fmt s match s_onerror sp with Some v => v | None => VNone end
+           else Ok (VDict []))
+    with (match s_onerror sp with
+          | Some oe => if py_truth oe then fmt s oe else Ok (VDict [])
+          | None => Ok (VDict [])
+          end) by (destruct (s_onerror sp); reflexivity).
+  apply lift_ext; intros custom. cbv zeta.
+  unfold ctx_list_append, exn_error_name, exn_message, exn_val, error_name.
+  destruct (s_pos sp) as [[ln col]|]; cbn [option_map fst snd];
+    (destruct (sget "runErrors" (ctx s)) as [[]|]; reflexivity).
+Qed.
+
 (** * Closed form: the engine at fuel [S f] is the generated ladder over the engine at fuel [f] —
     no hypothesis on nested behaviours is left (the balanced-stack invariant is proved by
     induction on fuel in EngineProofs) *)
